@@ -257,4 +257,36 @@ impl hb_aat_map_builder_t {
 #[allow(unused_imports, dead_code, missing_docs)]
 pub mod verif_hooks {
     use super::*;
+
+    /// What `hb_aat_layout_substitute` compiles for these user features:
+    /// per chain the list of (flags, cluster_first, cluster_last).
+    pub fn compile(face: &hb_font_t, feats: &[Feature]) -> Vec<Vec<(u32, u32, u32)>> {
+        let mut builder = hb_aat_map_builder_t::default();
+        for f in feats {
+            builder.add_feature(face, f);
+        }
+        let mut map = hb_aat_map_t::default();
+        builder.compile(face, &mut map);
+        map.chain_flags
+            .iter()
+            .map(|c| {
+                c.iter()
+                    .map(|r| (r.flags, r.cluster_first, r.cluster_last))
+                    .collect()
+            })
+            .collect()
+    }
+
+    /// The (kind, setting, is_exclusive, start, end) ranges `add_feature` records.
+    pub fn added_features(face: &hb_font_t, feats: &[Feature]) -> Vec<(u16, u16, bool, u32, u32)> {
+        let mut builder = hb_aat_map_builder_t::default();
+        for f in feats {
+            builder.add_feature(face, f);
+        }
+        builder
+            .features
+            .iter()
+            .map(|r| (r.info.kind, r.info.setting, r.info.is_exclusive, r.start, r.end))
+            .collect()
+    }
 }
